@@ -390,14 +390,9 @@ func runC17(seed int64, tier string, out string) {
 					// DISTINCT (which removes nothing here: c1 is unique) re-projects the columns; the sort values an
 					// analytic function cached per cell must not survive it: the outer ORDER BY gives the same sequence
 					oc := cols[sortable[r.Intn(len(sortable))]]
-					oc2 := cols[1+r.Intn(len(cols)-1)]
-					for tries := 0; oc2.idx == oc.idx && tries < 20; tries++ {
-						oc2 = cols[1+r.Intn(len(cols)-1)]
-					}
-					if oc2.idx == oc.idx {
-						oc2 = qCol{"t.c1 + 0", 0}
-					}
-					list := fmt.Sprintf("%s, %s, t.c1, ROW_NUMBER() OVER (ORDER BY t.c1%s) AS rn", oc2.sql, oc.sql, []string{"", " DESC"}[r.Intn(2)])
+					// the outer sort key is the FIRST item of the select list and the analytic function sorted by the
+					// table's first column: a cache kept per cell index would hand the outer sort the wrong column
+					list := fmt.Sprintf("%s, t.c1, ROW_NUMBER() OVER (ORDER BY t.c1%s) AS rn", oc.sql, []string{"", " DESC"}[r.Intn(2)])
 					tail := fmt.Sprintf(" FROM t ORDER BY %s%s, t.c1", oc.sql, []string{"", " DESC"}[r.Intn(2)])
 					pairs = append(pairs, [3]string{"seq:distinct-after-analytic", "SELECT DISTINCT " + list + tail, "SELECT " + list + tail})
 				}
